@@ -324,3 +324,11 @@ Theorem C02_sized_iff :
   (by_value_acyclicb r s = true <-> forall n p, ~ walk (item_edge s m) n p p).
 Proof. exact sized_iff_pinned. Qed.
 Print Assumptions C02_sized_iff.
+
+(** [C02_sized] covers every case of [C02_sized_partial]: a registry that generates and has a rank
+    in the sense of [bv_ranked] satisfies the boolean *)
+Theorem C02_sized_covers_partial :
+  forall r s rank, root_fresh s -> bv_ranked r s rank ->
+  forall teq m, generate r s teq = Ok m -> by_value_acyclicb r s = true.
+Proof. exact ranked_implies_boolean. Qed.
+Print Assumptions C02_sized_covers_partial.
